@@ -219,7 +219,7 @@ func runInt(c *hx.Ctx, r *hx.Rng, st *state) bool {
 	c.Count("int:family:" + fam)
 	c.Count(fmt.Sprintf("int:mode:%d", mode))
 	nt := (mode >= 1 && mode <= 3) || hasExtreme(xs)
-	c.Case(op, nt)
+	c.Case(opKey(op), nt)
 	if perr != "" {
 		c.Violation(line, "int_encode_panic", perr+" values="+short(hexWords(i64u(xs))))
 		return nt
@@ -343,7 +343,7 @@ func runS8b(c *hx.Ctx, r *hx.Rng, st *state) bool {
 	}
 	line := c.Emit(op, ans)
 	c.Count("s8b:family:" + fam)
-	c.Case(op, err == nil)
+	c.Case(opKey(op), err == nil)
 	if perr != "" {
 		c.Violation(line, "s8b_panic", perr)
 		return true
